@@ -110,20 +110,25 @@ AcceptPred(e) ==
   /\ \A i \in 6..9 : ValIs(e.o[i], a)               \* from_bits(to_bits), from_xx_bytes(to_xx_bytes)
 
 \* Fidelity of the layer-A transcription tla/alg/MathAlg.tla ("property" AF; never a verdict on the code): a recorded call
-\* with S = D is reproduced by the transcribed algorithm bit for bit and tick for tick, unless the transcription says
+\* (S = D, or a widening pair) is reproduced by the transcribed algorithm bit for bit and tick for tick, unless the transcription says
 \* "undef" (a plain operator of the code overflowed).
+\* S # D (widening pairs, D: From<S>): every function converts the operand with D::from first and works in D, so the
+\* transcription applies to the converted bits; the only S-typed step that can differ is exp's checked_neg of S::MIN.
 MathAlgOf(e) ==
-  CASE e.fn = "sqrt" -> Sqrt(ZJ(e.x), e.D)
-    [] e.fn = "log2" -> Log2(ZJ(e.x), e.D)
-    [] e.fn = "ln"   -> Ln(ZJ(e.x), e.D)
-    [] e.fn = "exp"  -> Exp(ZJ(e.x), e.D)
-    [] e.fn = "powi" -> Powi(ZJ(e.x), e.n, e.D)
-    [] e.fn = "pow"  -> Pow(ZJ(e.x), ZJ(e.y), e.D)
-    [] e.fn = "sin"  -> Sin(ZJ(e.x), e.D)
-    [] e.fn = "cos"  -> Cos(ZJ(e.x), e.D)
-    [] e.fn = "tan"  -> Tan(ZJ(e.x), e.D)
+  LET up == LF(e.D) - LF(e.S)
+      x  == ZShl(ZJ(e.x), up)
+  IN
+  CASE e.fn = "sqrt" -> Sqrt(x, e.D)
+    [] e.fn = "log2" -> Log2(x, e.D)
+    [] e.fn = "ln"   -> Ln(x, e.D)
+    [] e.fn = "exp"  -> IF e.S # e.D /\ LS(e.S) /\ ZEq(ZJ(e.x), MinV(e.S)) THEN MAErr(0) ELSE Exp(x, e.D)
+    [] e.fn = "powi" -> Powi(x, e.n, e.D)
+    [] e.fn = "pow"  -> Pow(x, ZShl(ZJ(e.y), up), e.D)
+    [] e.fn = "sin"  -> Sin(x, e.D)
+    [] e.fn = "cos"  -> Cos(x, e.D)
+    [] e.fn = "tan"  -> Tan(x, e.D)
 AcceptFidelity(e) ==
-  \/ e.k # "math" \/ e.S # e.D \/ e.fn \notin {"sqrt", "log2", "ln", "exp", "pow", "powi", "sin", "cos", "tan"}
+  \/ e.k # "math" \/ LF(e.D) < LF(e.S) \/ e.fn \notin {"sqrt", "log2", "ln", "exp", "pow", "powi", "sin", "cos", "tan"}
   \/ (e.fn = "powi" /\ (e.n > 300 \/ e.n < -300))
   \/ LET a == MathAlgOf(e) IN
      \/ a.k = "undef"
